@@ -28,7 +28,9 @@
 #include "opentelemetry/sdk/trace/samplers/always_on.h"
 #include "opentelemetry/sdk/trace/simple_processor.h"
 #include "opentelemetry/sdk/trace/span_data.h"
+#include "opentelemetry/sdk/trace/tracer_context_factory.h"
 #include "opentelemetry/sdk/trace/tracer_provider.h"
+#include "opentelemetry/sdk/trace/tracer_provider_factory.h"
 #include "opentelemetry/trace/span_context_kv_iterable.h"
 #include "opentelemetry/trace/span_startoptions.h"
 
@@ -357,9 +359,23 @@ static std::string handle(const std::vector<std::string> &toks)
     Exact rtag(res);
     auto resource = opentelemetry::sdk::resource::Resource::Create(
         {{"verif.res", nostd::string_view(rtag.data(), rtag.size())}});
-    provider = std::make_shared<trace_sdk::TracerProvider>(
-        std::move(processors), resource, std::unique_ptr<trace_sdk::Sampler>(new trace_sdk::AlwaysOnSampler),
-        std::unique_ptr<trace_sdk::IdGenerator>(new trace_sdk::RandomIdGenerator));
+    // the provider can be built through two constructors, ten factory overloads and a context: which one is used depends on
+    // the case (deterministically); with the default sampler and id generator they must all build the same pipeline
+    auto sampler = []() { return std::unique_ptr<trace_sdk::Sampler>(new trace_sdk::AlwaysOnSampler); };
+    auto idgen   = []() { return std::unique_ptr<trace_sdk::IdGenerator>(new trace_sdk::RandomIdGenerator); };
+    using F      = trace_sdk::TracerProviderFactory;
+    const size_t how = (res.size() + 2 * procs.size() + name.size()) % 8;
+    const bool one   = processors.size() == 1;
+    if (how == 1) provider = F::Create(std::move(processors), resource);
+    else if (how == 2) provider = F::Create(std::move(processors), resource, sampler());
+    else if (how == 3) provider = F::Create(std::move(processors), resource, sampler(), idgen());
+    else if (how == 4 && one) provider = F::Create(std::move(processors[0]), resource);
+    else if (how == 5 && one) provider = F::Create(std::move(processors[0]), resource, sampler(), idgen());
+    else if (how == 6 && one) provider = std::make_shared<trace_sdk::TracerProvider>(std::move(processors[0]), resource);
+    else if (how == 7)
+      provider = F::Create(trace_sdk::TracerContextFactory::Create(std::move(processors), resource, sampler(), idgen()));
+    else
+      provider = std::make_shared<trace_sdk::TracerProvider>(std::move(processors), resource, sampler(), idgen());
   }
   nostd::shared_ptr<trace_api::Tracer> tracer;
   {
